@@ -47,6 +47,13 @@ broken translator obligation):
   effects    : return type `calls:<n>` / `calls:<t1>,<t2>,...`: a method whose observable behaviour is the sequence of
                its calls `self.<m>(a1, ..., an)` for `<m>` in EFFECTS (n integer arguments / arguments of the given
                types, no keywords): the result is the list of argument tuples in call order.
+  static     : `isinstance(x, str)` / `isinstance(x, Iterable)` for a parameter `x` declared "int" (and never
+               assigned in live code) is False by the declared type: an `if` with such a test (also under not / and /
+               or) keeps only its live branch - the generated definition covers the calls with an int argument.
+               `x in Enum` / `x not in Enum` for an IntEnum class is membership of the value (Python >= 3.12).
+               `D[k]` for the dicts in KEY_DICTS / PAIR_DICTS (tables regenerated by other translator modules) is a
+               raising expression (KeyError).  In a `calls:` function `return self.<EFFECT>(...)[.attr]` records the
+               call; the reply of the machine (the returned value) is not part of the result.
   events     : return type `ev:<t>`: calls of the methods in EVENT_CALLS (`warnings.warn`, `self._parent._perform_read`,
                `self._parent._perform_write`) are recorded, in order, in a list of `PyEvent` (name, integer arguments,
                bytes argument; the arguments of `warn` - a message - are not modelled) that is the LAST component of
@@ -173,6 +180,10 @@ FUNCS = [
     ("rig/machine_control/scp_connection.py", "SCPConnection.read.packets",
      ["int", "ignored", "buffer_size=int", "x=int", "y=int", "p=int", "address=int"],
      "exc:gen:int,int,int,int,int,int,int"),
+    ("rig/machine_control/machine_controller.py", "MachineController.send_signal", ["obj:", "int", "int"],
+     "exc:calls:7"),
+    ("rig/machine_control/machine_controller.py", "MachineController.count_cores_in_state", ["obj:", "int", "int"],
+     "exc:calls:7"),
     ("rig/machine_control/machine_controller.py", "SlicedMemoryIO.read",
      ["obj:_start_address,_end_address,_offset", "int"], "ev:bytes"),
     ("rig/machine_control/machine_controller.py", "SlicedMemoryIO.write",
@@ -202,6 +213,9 @@ PAIR_DICTS = {"address_length_dtype": ("Rig.Gen.Scp.dtypeTable", 4, 4)}
 # calls recorded as events in functions declared `ev:`: method name -> (argument kinds or None = arguments not
 # modelled, type of the result or None); the receiver is `self`, an attribute chain of `self` or a module
 EVENT_CALLS = {"warn": (None, None), "_perform_read": (("int", "int"), "bytes"), "_perform_write": (("int", "bytes"), None)}
+# module-level dicts from IntEnum members to IntEnum members, regenerated by another translator module as
+# association lists `List (Nat × Nat)`: `D[k]` raises KeyError when absent
+KEY_DICTS = {"signal_types": "Rig.Gen.LoadSig.signalTypes", "diagnostic_signal_types": "Rig.Gen.LoadSig.diagSignalTypes"}
 # named tuples whose construction may be yielded: the positional arguments kept, keyword arguments ignored
 RECORD_CALLS = {"scpcall": ("callback",)}
 # classes whose construction may be returned: the integer arguments kept (by position)
@@ -257,6 +271,13 @@ structure PyEvent where
   ints : List Int
   bytes : List Int
   deriving DecidableEq, Repr
+
+/-- `D[k]` for a dict given as an association list of naturals; `KeyError` when absent (or negative) -/
+def pyKeyGet (t : List (Nat × Nat)) (k : Int) : Except String Int :=
+  if k < 0 then Except.error "KeyError"
+  else match t.lookup k.toNat with
+    | some v => Except.ok (v : Int)
+    | none => Except.error "KeyError"
 
 /-- Python `int(math.sqrt(n))` (integer square root, exact below 2^52; `ValueError: math domain error` for n < 0) -/
 def pyIsqrt (n : Int) : Except String Int :=
@@ -498,6 +519,15 @@ class Tr(object):
             return members[n.attr]
         return None
 
+    def enum_values(self, n):
+        """an IntEnum class `Enum` / `module.Enum` -> its member values, or None"""
+        if isinstance(n, ast.Name) and n.id in self.enums and n.id not in self.lty:
+            return list(self.enums[n.id].values())
+        if isinstance(n, ast.Attribute) and isinstance(n.value, ast.Name) and n.value.id in self.module_enums \
+                and n.value.id not in self.lty and n.attr in self.module_enums[n.value.id]:
+            return list(self.module_enums[n.value.id][n.attr].values())
+        return None
+
     def none_test(self, n):
         """`x is None` / `x is not None` on an optional -> (optional Lean expr, key, is_none) or None"""
         if not (isinstance(n, ast.Compare) and len(n.ops) == 1 and isinstance(n.ops[0], (ast.Is, ast.IsNot))
@@ -577,7 +607,7 @@ class Tr(object):
         """does any of the AST nodes contain a construct translated as a raising expression?"""
         for x in nodes:
             for n in ast.walk(x):
-                if self.is_list_index(n) or self.pair_dict(n) is not None:
+                if self.is_list_index(n) or self.pair_dict(n) is not None or self.key_dict(n) is not None:
                     return True
                 if isinstance(n, ast.Call) and isinstance(n.func, ast.Name) and n.func.id == "sqrt":
                     return True
@@ -602,7 +632,21 @@ class Tr(object):
             return name, n.slice.elts[0], n.slice.elts[1]
         return None
 
+    def key_dict(self, n):
+        """`D[k]` / `module.D[k]` for a Nat-keyed, Nat-valued generated table (KEY_DICTS) -> (Lean table, key AST)"""
+        if not isinstance(n, ast.Subscript) or isinstance(n.slice, (ast.Slice, ast.Tuple)):
+            return None
+        v = n.value
+        name = v.id if isinstance(v, ast.Name) else v.attr if (
+            isinstance(v, ast.Attribute) and isinstance(v.value, ast.Name) and v.value.id in self.module_enums) else None
+        if name in KEY_DICTS and name not in self.lty:
+            return KEY_DICTS[name], n.slice
+        return None
+
     def e(self, n):
+        kd = self.key_dict(n)
+        if kd is not None:
+            return self.raising("(pyKeyGet %s %s)" % (kd[0], self.e(kd[1])))
         if isinstance(n, ast.Constant) and isinstance(n.value, bytes):
             return "([%s] : List Int)" % ", ".join(str(b) for b in bytearray(n.value))
         if isinstance(n, ast.BinOp) and isinstance(n.op, ast.Add) and self.tyof(n.left).startswith("List ") \
@@ -848,6 +892,13 @@ class Tr(object):
 
     def p(self, n):
         """a Python expression used as a condition -> Lean Prop"""
+        if isinstance(n, ast.Compare) and len(n.ops) == 1 and isinstance(n.ops[0], (ast.In, ast.NotIn)):
+            # `x in Enum` / `x not in Enum` for an IntEnum class: value membership (Python >= 3.12)
+            vals = self.enum_values(n.comparators[0])
+            if vals is None:
+                raise NotImplementedError("`in` " + ast.dump(n.comparators[0])[:60])
+            m = "(([%s] : List Int).contains %s = true)" % (", ".join(str(v) for v in vals), self.e(n.left))
+            return m if isinstance(n.ops[0], ast.In) else "(¬ %s)" % m
         if isinstance(n, ast.Compare):
             if any(isinstance(o, (ast.Is, ast.IsNot)) for o in n.ops):
                 nt = self.none_test(n)
@@ -1226,6 +1277,13 @@ class Tr(object):
             if not self.loops:
                 raise NotImplementedError("break / continue outside a loop")
             return pad + self.loops[-1].tuple("true" if isinstance(s, ast.Break) else "false")
+        if isinstance(s, ast.Return) and self.base().startswith("calls:") and s.value is not None:
+            # `return self.<EFFECT>(...)` / `return self.<EFFECT>(...).attr`: the call is recorded; what the machine
+            # answers (and hence the returned value) is not part of a `calls:` result
+            c = s.value.value if isinstance(s.value, ast.Attribute) else s.value
+            if self.is_emit(ast.Expr(value=c)) is None:
+                raise NotImplementedError("return with a value in a function declared calls:")
+            return self.block([ast.Expr(value=c), ast.Return(value=None)] + rest, ind, tail)
         if isinstance(s, ast.Return):
             if tail is not None and not self.loops:
                 raise NotImplementedError("return in this position")
@@ -1270,7 +1328,32 @@ class Tr(object):
             return self.while_stmt(s, rest, ind, tail)
         raise NotImplementedError(ast.dump(s)[:120])
 
+    def static_test(self, n):
+        """a condition decided by the DECLARED types alone: `isinstance(x, str)` / `isinstance(x, Iterable)` is False
+        for an int-typed parameter `x`; and / or / not of such -> True / False / None (not static)"""
+        if (isinstance(n, ast.Call) and isinstance(n.func, ast.Name) and n.func.id == "isinstance" and len(n.args) == 2
+                and isinstance(n.args[0], ast.Name) and self.types.get(n.args[0].id) == "int"
+                and n.args[0].id not in self.assigned_anywhere_py
+                and isinstance(n.args[1], ast.Name) and n.args[1].id in ("str", "Iterable", "bytes", "list", "tuple")):
+            return False
+        if isinstance(n, ast.UnaryOp) and isinstance(n.op, ast.Not):
+            v = self.static_test(n.operand)
+            return None if v is None else not v
+        if isinstance(n, ast.BoolOp):
+            vs = [self.static_test(v) for v in n.values]
+            if isinstance(n.op, ast.And) and vs[0] is False:
+                return False                     # later operands are not evaluated
+            if isinstance(n.op, ast.Or) and vs[0] is True:
+                return True
+            if all(v is not None for v in vs):
+                return all(vs) if isinstance(n.op, ast.And) else any(vs)
+        return None
+
     def if_stmt(self, s, rest, ind, tail):
+        st = self.static_test(s.test)
+        if st is not None:
+            # decided by the declared parameter types: only the live branch exists
+            return self.block((s.body if st else s.orelse) + rest, ind, tail)
         pad = "  " * ind
         nt = self.none_test(s.test)
         saved_l, saved_n = dict(self.lty), dict(self.narrow)
@@ -1686,6 +1769,7 @@ def translate(repo, rel, fname, ptypes, ret, done=None):
     tr.imports_sqrt = any(isinstance(n, ast.ImportFrom) and n.module == "math" and any(
         al.name == "sqrt" and al.asname is None for al in n.names) for n in tree.body)
     tr.rec_elems = dict((ident(p), t[9:].split(",")) for p, t in zip(params, ptypes) if t.startswith("list:rec:"))
+    tr.assigned_anywhere_py = set()
     tr.assigned_anywhere = set()
     for n in ast.walk(fn):
         if isinstance(n, (ast.Assign, ast.AugAssign, ast.For)):
@@ -1693,6 +1777,30 @@ def translate(repo, rel, fname, ptypes, ret, done=None):
                 for x in ast.walk(t):
                     if isinstance(x, ast.Name):
                         tr.assigned_anywhere.add(ident(x.id))
+    def live_assigned(stmts):
+        for st_ in stmts:
+            if isinstance(st_, ast.If):
+                v = tr.static_test(st_.test)
+                for x in live_assigned((st_.body if v is not False else []) + (st_.orelse if v is not True else [])):
+                    yield x
+            elif isinstance(st_, (ast.For, ast.While)):
+                for x in live_assigned(st_.body + st_.orelse):
+                    yield x
+                if isinstance(st_, ast.For):
+                    for x in ast.walk(st_.target):
+                        if isinstance(x, ast.Name):
+                            yield x.id
+            elif isinstance(st_, (ast.Assign, ast.AugAssign)):
+                for t in (st_.targets if isinstance(st_, ast.Assign) else [st_.target]):
+                    for x in ast.walk(t):
+                        if isinstance(x, ast.Name):
+                            yield x.id
+            elif isinstance(st_, ast.Try):
+                for x in live_assigned(st_.body + st_.orelse + st_.finalbody + [h for hh in st_.handlers for h in hh.body]):
+                    yield x
+    # two passes: a parameter assigned only in code that is dead by its declared type keeps that type
+    tr.assigned_anywhere_py = set()
+    tr.assigned_anywhere_py = set(live_assigned(fn.body))
     base = ret[4:] if ret.startswith("exc:") else ret
     events = base.startswith("ev:")
     if events:
@@ -1780,7 +1888,7 @@ def is_ignored_store(s, types):
 
 
 def gen_pyfun(repo):
-    s = HEADER + "import Mathlib.Data.Int.Bitwise\nimport RigModel.Gen.Spinn5\nimport RigModel.Gen.Links\nimport RigModel.Gen.Scp\nset_option linter.unusedVariables false\nnamespace Rig.Gen.PyFun\n\n"
+    s = HEADER + "import Mathlib.Data.Int.Bitwise\nimport RigModel.Gen.Spinn5\nimport RigModel.Gen.Links\nimport RigModel.Gen.Scp\nimport RigModel.Gen.LoadSig\nset_option linter.unusedVariables false\nnamespace Rig.Gen.PyFun\n\n"
     s += PRELUDE
     done = {}
     for rel, fname, ptypes, ret in FUNCS:
